@@ -349,7 +349,12 @@ func (x *Exec) fresh(s *State, t types.Type, hint string) Value {
 	})
 }
 
-const maxObj = uint64(1) << 48
+// maxObj bounds the capacity of any existing slice: the amd64 user address space
+// is 2^47 bytes. makeLimit is the size above which makeslice panics (runtime
+// maxAlloc = 2^48 on linux/amd64); sizes in between end in an out-of-memory
+// fatal error, which is not a panic.
+const maxObj = uint64(1) << 47
+const makeLimit = uint64(1) << 48
 
 // firstAlloc: region identifiers at or above this value are allocations made
 // during the verified function; everything that existed before is below it.
